@@ -33,6 +33,8 @@ pub enum Word {
     SubPrefix(u8, u8),
     /// cluster of real value-less short flags followed by a byte that is not UTF-8
     ShortClusterBadTail(Vec<u8>),
+    /// `-x` where x is the short (or a visible short alias) of a value-taking option: what follows is its value
+    ShortOptValue(u8),
 }
 
 #[derive(Clone, Debug, Hash, Serialize, Deserialize, PartialEq)]
@@ -175,16 +177,15 @@ fn level_entities(level: &CmdSpec, globals: &[&ArgSpec]) -> Vec<Entity> {
             vis.extend(a.visible_aliases.iter().map(|x| format!("--{x}")));
             all.extend(a.aliases.iter().map(|x| format!("--{x}")));
         } else {
-            // aliases of an argument without a long of its own are not offered (get_long_and_visible_aliases is None)
-            all.extend(a.visible_aliases.iter().chain(a.aliases.iter()).map(|x| format!("--{x}")));
+            // visible aliases are spellings the parser accepts, whether or not the argument has a long of its own
+            vis.extend(a.visible_aliases.iter().map(|x| format!("--{x}")));
+            all.extend(a.aliases.iter().map(|x| format!("--{x}")));
         }
         if let Some(s) = a.short {
             vis.push(format!("-{s}"));
-            vis.extend(a.visible_short_aliases.iter().map(|x| format!("-{x}")));
-            all.extend(a.short_aliases.iter().map(|x| format!("-{x}")));
-        } else {
-            all.extend(a.visible_short_aliases.iter().chain(a.short_aliases.iter()).map(|x| format!("-{x}")));
         }
+        vis.extend(a.visible_short_aliases.iter().map(|x| format!("-{x}")));
+        all.extend(a.short_aliases.iter().map(|x| format!("-{x}")));
         all.extend(vis.iter().cloned());
         v.push(Entity { id: format!("arg::{}", a.id), hidden: a.hide, visible: vis, all, takes_value: a.takes_values() });
     }
@@ -338,6 +339,17 @@ fn print_intent(spec: &CmdSpec, il: &IntentLine) -> Option<Printed> {
             args.push(B(bytes.clone()).os());
             return Some(Printed { args, index, level_path: Vec::new(), word: String::from_utf8_lossy(&bytes).to_string(), word_bytes: bytes, lead });
         }
+        Word::ShortOptValue(pick) => {
+            let mut spellings: Vec<char> = Vec::new();
+            for a in named.iter().filter(|a| a.takes_values() && a.value_range().0 >= 1 && !a.hide) {
+                spellings.extend(a.visible_short_aliases.iter().copied());
+                spellings.extend(a.short);
+            }
+            if spellings.is_empty() {
+                return None;
+            }
+            format!("-{}", spellings[*pick as usize % spellings.len()])
+        }
         Word::SubPrefix(pick, cut) => {
             let names: Vec<&String> = ents.iter().filter(|e| e.id.starts_with("command::")).flat_map(|e| e.visible.iter()).collect();
             if names.is_empty() {
@@ -423,6 +435,7 @@ fn gen_word(rng: &mut Rng) -> Word {
                 Word::ShortCluster(picks)
             }
         }
+        8 if rng.coin() => Word::ShortOptValue(rng.below(16) as u8),
         _ => Word::SubPrefix(rng.below(16) as u8, rng.below(16) as u8),
     }
 }
@@ -1054,6 +1067,18 @@ fn check_intent(sc: &CompSc, line: &Line, p: &Printed, list: &[CompletionCandida
     let globals = globals_of(&chain);
     let ents = level_entities(level, &globals);
     let word = p.word.as_str();
+    if matches!(il.word, Word::ShortOptValue(_)) {
+        // the word ends in a value-taking option (by its short or a visible short alias): whatever follows is that
+        // option's value, so no candidate may claim to be another flag of the level
+        for c in list {
+            if let Some(id) = c.get_id() {
+                if id.starts_with("arg::") {
+                    return Some(("flag-offered-inside-option-value", "short-option-value".into(), format!("candidate {:?} claims to be {id}, but the parser reads everything after `{word}` as that option's value", c.get_value())));
+                }
+            }
+        }
+        return None;
+    }
     // external subcommand names offered by the application's SubcommandCandidates provider are subcommand
     // candidates too: they must extend the word (the provider of this workload returns a fixed list and does
     // not look at the word; argument completers, which do get the word, are kept out of this rule)
